@@ -311,6 +311,52 @@ Proof.
     { unfold read_default_cal. destruct c as [[|c0 cs]|]; fstep; reflexivity. }
     rewrite D. cbn [bind]. destruct (RC []) as [R|(x & [] & _)]. cbn [app] in R. rewrite R. reflexivity.
 Qed.
+
+(* ---- string and binary encodings ---- *)
+Lemma is_tag_write_dynamic n r c a : is_tag U n (write_dynamic U r c a) = String.eqb "DynamicValue" n.
+Proof. unfold write_dynamic. apply is_tag_E. Qed.
+Ltac fstep2 := repeat (progress (fstep; rewrite ?is_tag_write_dynamic; cbn [String.eqb Ascii.eqb Bool.eqb])).
+
+Definition size_wf (s0 : xsize) : Prop := match s0 with XLookup ls => Forall lookup_wf ls | _ => True end.
+Definition order_of (cs : string) (given : option string) : option string :=
+  if single_byte cs then None
+  else if String.eqb cs "UTF-16LE" || String.eqb cs "UTF-32LE" then Some "leastSignificantByteFirst"
+  else if String.eqb cs "UTF-16BE" || String.eqb cs "UTF-32BE" then Some "mostSignificantByteFirst"
+  else given.
+Definition string_wf (e : xstring) : Prop :=
+  size_wf (xs_size e) /\ xs_leading e <> Some 0%Z /\ xs_term e <> Some "" /\
+  xs_order e = order_of (xs_charset e) (xs_order e) /\ (single_byte (xs_charset e) = false -> xs_order e <> None).
+
+Theorem rt_binary s0 : size_wf s0 -> read_binary U (write_binary U s0) = Ok s0.
+Proof.
+  intro W. unfold read_binary, write_binary. destruct s0 as [n|r c a|ls].
+  - fstep2. step. reflexivity.
+  - fstep2. now rewrite rt_dynamic.
+  - fstep2. cbn [size_wf] in W. now rewrite (rt_lookups ls W).
+Qed.
+
+Theorem rt_string e : string_wf e -> read_string U (write_string U e) = Ok e.
+Proof.
+  intros (Ws & Wl & Wt & Wo & Wm). destruct e as [cs ord sz term lead]. cbn [xs_size xs_leading xs_term xs_order xs_charset] in *.
+  unfold read_string, write_string. cbn [xs_size xs_leading xs_term xs_order xs_charset].
+  (* the byte order the reader reconstructs *)
+  assert (RO : forall kids,
+     (if single_byte cs then Ok None
+      else if String.eqb cs "UTF-16LE" || String.eqb cs "UTF-32LE" then Ok (Some "leastSignificantByteFirst")
+      else if String.eqb cs "UTF-16BE" || String.eqb cs "UTF-32BE" then Ok (Some "mostSignificantByteFirst")
+      else o <- opt_s (E U "StringDataEncoding" (("encoding", AS cs) :: optattr "byteOrder" ord) kids) "byteOrder" ;;
+           match o with Some s1 => Ok (Some s1) | None => Err EValue end) = Ok ord).
+  { intro kids. unfold order_of in Wo. destruct (single_byte cs) eqn:SB; [now rewrite Wo|].
+    destruct (String.eqb cs "UTF-16LE" || String.eqb cs "UTF-32LE")%bool; [now rewrite Wo|].
+    destruct (String.eqb cs "UTF-16BE" || String.eqb cs "UTF-32BE")%bool; [now rewrite Wo|].
+    destruct ord as [o|]; [|exfalso; now apply Wm]. unfold optattr. step. reflexivity. }
+  assert (EN : forall kids, opt_s (E U "StringDataEncoding" (("encoding", AS cs) :: optattr "byteOrder" ord) kids) "encoding" = Ok (Some cs)) by reflexivity.
+  rewrite EN. cbn [bind]. rewrite RO. cbn [bind]. clear RO EN Wo Wm.
+  destruct lead as [z|]; [destruct (Z.eqb_spec z 0) as [->|Hz]; [congruence|]|];
+    (destruct term as [t|]; [destruct (String.eqb_spec t "") as [->|Ht]; [congruence|]|]);
+    destruct sz as [n|r c a|ls]; cbn [size_wf] in Ws;
+    fstep2; step; rewrite ?rt_dynamic, ?(rt_lookups _ Ws); cbn [bind]; fstep2; step; try reflexivity.
+Qed.
 End RT.
 
 Theorem stable_criteria U all_children bool_ok tag attrs ks : criteria_wf bool_ok ks ->
@@ -421,3 +467,397 @@ Proof.
   intro H. injection H as <-. repeat first [apply ns_ptype | apply ns_param | ns1]. eapply ns_containers; eauto.
 Qed.
 End NS.
+
+(* ================= C09 continued: locating the data encoding inside a parameter type ================= *)
+Section Tags.
+Variable U : option string.
+Inductive tags_in (S : list string) : velem -> Prop :=
+  ti_intro u m a t k : In m S -> Forall (tags_in S) k -> tags_in S (VE (u, m) a t k).
+
+Definition INNER : list string :=
+  ["Comparison"; "ComparisonList"; "BooleanExpression"; "Condition"; "ParameterInstanceRef"; "ComparisonOperator"; "Value";
+   "ANDedConditions"; "ORedConditions"; "PolynomialCalibrator"; "Term"; "SplineCalibrator"; "SplinePoint"; "ContextCalibrator";
+   "ContextMatch"; "Calibrator"; "DefaultCalibrator"; "ContextCalibratorList"; "DiscreteLookup"; "DiscreteLookupList"; "DynamicValue";
+   "LinearAdjustment"; "SizeInBits"; "Fixed"; "FixedValue"; "Variable"; "LeadingSize"; "TerminationChar";
+   "UnitSet"; "Unit"; "EnumerationList"; "Enumeration"].
+
+Lemma ti_E S m a k : In m S -> Forall (tags_in S) k -> tags_in S (E U m a k).
+Proof. intros. unfold E. now constructor. Qed.
+Lemma ti_ET S m t : In m S -> tags_in S (ET U m t).
+Proof. intros. unfold ET. constructor; auto. Qed.
+Lemma ti_weaken S S' v : (forall m, In m S -> In m S') -> tags_in S v -> tags_in S' v.
+Proof.
+  intro H. revert v. fix IH 2. intros v T. destruct T as [u m a t k Hm Hk]. constructor; auto.
+  induction Hk as [|x r Hx _ IHr]; constructor; auto.
+Qed.
+Lemma ti_map {A} S (f : A -> velem) l : (forall x, tags_in S (f x)) -> Forall (tags_in S) (map f l).
+Proof. intro H. induction l; cbn; constructor; auto. Qed.
+Lemma ti_map_forall {A} S (f : A -> velem) l : Forall (fun x => tags_in S (f x)) l -> Forall (tags_in S) (map f l).
+Proof. induction 1; cbn; constructor; auto. Qed.
+Lemma ti_app S (a b : list velem) : Forall (tags_in S) a -> Forall (tags_in S) b -> Forall (tags_in S) (a ++ b).
+Proof. intros. apply Forall_app. split; assumption. Qed.
+
+Ltac inS := cbn; tauto.
+Ltac t1 := first [ apply ti_ET; [inS] | apply ti_E; [inS|] | apply Forall_nil | apply Forall_cons | apply ti_app | (apply ti_map; intros) ].
+Ltac tall := repeat t1.
+
+Lemma ti_comparison c : tags_in INNER (write_comparison U c). Proof. unfold write_comparison. tall. Qed.
+Lemma ti_condition d : tags_in INNER (write_condition U d). Proof. unfold write_condition. destruct (xd_right d); tall. Qed.
+Lemma ti_bx : forall t, tags_in INNER (write_bx U t).
+Proof.
+  apply (xbx_ind' (fun t => tags_in INNER (write_bx U t))); intros cs subs IH; cbn [write_bx]; apply ti_E; try inS; apply ti_app;
+    try (apply ti_map; intros; apply ti_condition); now apply ti_map_forall.
+Qed.
+Lemma ti_bexpr b : tags_in INNER (write_bexpr U b).
+Proof. unfold write_bexpr. apply ti_E; [inS|]. constructor; [|constructor]. destruct b; [apply ti_condition|apply ti_bx]. Qed.
+Lemma ti_criterion k : tags_in INNER (write_criterion U k).
+Proof. destruct k; [apply ti_comparison|apply ti_bexpr]. Qed.
+Lemma ti_list ks : tags_in INNER (E U "ComparisonList" [] (map (write_criterion U) ks)).
+Proof. apply ti_E; [inS|]. apply ti_map. intros; apply ti_criterion. Qed.
+Lemma ti_criteria ks : Forall (tags_in INNER) (write_criteria U ks).
+Proof.
+  unfold write_criteria. destruct ks as [|k [|k2 r]].
+  - constructor; [apply ti_list|constructor].
+  - constructor; [apply ti_criterion|constructor].
+  - constructor; [apply ti_list|constructor].
+Qed.
+Lemma ti_cal c : tags_in INNER (write_cal U c).
+Proof. destruct c; cbn [write_cal]; tall. Qed.
+Ltac t2 := first [ apply ti_comparison | apply ti_condition | apply ti_bx | apply ti_bexpr | apply ti_criterion | apply ti_list | apply ti_criteria | apply ti_cal | t1 ].
+Lemma ti_context c : tags_in INNER (write_context U c).
+Proof. unfold write_context. repeat t2. Qed.
+Lemma ti_lookup l : tags_in INNER (write_lookup U l).
+Proof. unfold write_lookup. destruct (xl_criteria l) as [|k [|k2 r]]; repeat t2. Qed.
+Lemma ti_dynamic r c a : tags_in INNER (write_dynamic U r c a).
+Proof. unfold write_dynamic. destruct a as [[s0 i]|]; repeat t2. Qed.
+Lemma ti_numeric e : tags_in ((if xn_float e then "FloatDataEncoding" else "IntegerDataEncoding") :: INNER) (write_numeric U e).
+Proof.
+  unfold write_numeric. apply ti_E; [now left|].
+  assert (W : forall v, tags_in INNER v -> tags_in ((if xn_float e then "FloatDataEncoding" else "IntegerDataEncoding") :: INNER) v)
+    by (intros v; apply ti_weaken; intros; now right).
+  apply ti_app.
+  - destruct (xn_default e); [|constructor]. constructor; [|constructor]. apply W. apply ti_E; [inS|]. constructor; [apply ti_cal|constructor].
+  - destruct (xn_context e) as [[|c cs]|]; try constructor; [|constructor]. apply W. apply ti_E; [inS|]. apply ti_map. intros; apply ti_context.
+Qed.
+Lemma ti_string e : tags_in ("StringDataEncoding" :: INNER) (write_string U e).
+Proof.
+  assert (W : forall v, tags_in INNER v -> tags_in ("StringDataEncoding" :: INNER) v) by (intros v; apply ti_weaken; intros; now right).
+  unfold write_string. apply ti_E; [now left|]. constructor; [|constructor]. apply W.
+  destruct (xs_leading e) as [z|]; [destruct (z =? 0)%Z|]; (destruct (xs_term e) as [t|]; [destruct (String.eqb t "")|]);
+    destruct (xs_size e) as [n|r c a|ls]; repeat first [apply ti_dynamic | apply ti_lookup | t2].
+Qed.
+Lemma ti_binary s0 : tags_in ("BinaryDataEncoding" :: INNER) (write_binary U s0).
+Proof.
+  assert (W : forall v, tags_in INNER v -> tags_in ("BinaryDataEncoding" :: INNER) v) by (intros v; apply ti_weaken; intros; now right).
+  unfold write_binary. apply ti_E; [now left|]. constructor; [|constructor]. apply W.
+  destruct s0; repeat first [apply ti_dynamic | apply ti_lookup | t2].
+Qed.
+
+Lemma find_app_none {A} (f : A -> bool) a b : List.find f a = None -> List.find f (a ++ b) = List.find f b.
+Proof. induction a as [|x t IH]; cbn; auto. destruct (f x); [discriminate|auto]. Qed.
+
+(* searching all descendants for a tag that does not occur *)
+Lemma desc_miss S n : (forall m, In m S -> String.eqb m n = false) ->
+  forall fuel v, tags_in S v -> List.find (is_tag U n) (descendants fuel v) = None.
+Proof.
+  intro HS. induction fuel as [|f IH]; intros v T; [reflexivity|]. destruct T as [u m a t k Hm Hk]. cbn [descendants vkids].
+  induction Hk as [|x r Hx _ IHr]; [reflexivity|]. cbn [flat_map]. cbn [app List.find].
+  assert (Tx : is_tag U n x = false).
+  { destruct Hx as [u' m' a' t' k' Hm' _]. unfold is_tag. cbn [vtag fst snd]. rewrite (HS m' Hm'). apply andb_false_r. }
+  rewrite Tx. rewrite find_app_none; [exact IHr|]. now apply IH.
+Qed.
+End Tags.
+
+Section Enc.
+Variable U : option string.
+
+Lemma not_in_inner n : In n ["StringDataEncoding"; "IntegerDataEncoding"; "FloatDataEncoding"; "BinaryDataEncoding"] ->
+  forall m, In m INNER -> String.eqb m n = false.
+Proof. intros Hn m Hm. cbn in Hn, Hm. intuition; subst; reflexivity. Qed.
+
+Lemma descendants_E f m a k : descendants (S f) (E U m a k) = flat_map (fun x => x :: descendants f x) k.
+Proof. reflexivity. Qed.
+
+Lemma find_flat_pre S n f (pre : list velem) rest : (forall m, In m S -> String.eqb m n = false) -> Forall (tags_in S) pre ->
+  List.find (is_tag U n) (flat_map (fun x => x :: descendants f x) pre ++ rest) = List.find (is_tag U n) rest.
+Proof.
+  intros HS HF. induction HF as [|x r Hx _ IH]; [reflexivity|]. cbn [flat_map]. rewrite <- !app_assoc. cbn [app List.find].
+  assert (Tx : is_tag U n x = false).
+  { destruct Hx as [u' m' a' t' k' Hm' _]. unfold is_tag. cbn [vtag fst snd]. rewrite (HS m' Hm'). apply andb_false_r. }
+  rewrite Tx. rewrite find_app_none; [exact IH|]. now apply (desc_miss U S n HS).
+Qed.
+
+Lemma find_desc_hit S n m a pre x post : (forall m, In m S -> String.eqb m n = false) -> Forall (tags_in S) pre ->
+  is_tag U n x = true -> find_desc U n (E U m a (pre ++ x :: post)) = Some x.
+Proof.
+  intros HS HF Hx. unfold find_desc. rewrite vdepth_E, descendants_E. rewrite flat_map_app. cbn [flat_map].
+  rewrite (find_flat_pre S n _ pre _ HS HF). cbn [app List.find]. now rewrite Hx.
+Qed.
+Lemma find_desc_miss S n m a kids : (forall m, In m S -> String.eqb m n = false) -> Forall (tags_in S) kids ->
+  find_desc U n (E U m a kids) = None.
+Proof.
+  intros HS HF. unfold find_desc. rewrite vdepth_E, descendants_E.
+  rewrite <- (app_nil_r (flat_map _ kids)). now rewrite (find_flat_pre S n _ kids [] HS HF).
+Qed.
+
+Definition encoding_wf (e : xencoding) : Prop :=
+  match e with XNum ne => numeric_wf ne | XStr se => string_wf se | XBin s0 => size_wf s0 end.
+Definition enc_tag (e : xencoding) : string :=
+  match e with XNum ne => if xn_float ne then "FloatDataEncoding" else "IntegerDataEncoding" | XStr _ => "StringDataEncoding" | XBin _ => "BinaryDataEncoding" end.
+Lemma is_tag_write_encoding n e : is_tag U n (write_encoding U e) = String.eqb (enc_tag e) n.
+Proof. destruct e as [ne|se|s0]; cbn [write_encoding enc_tag]; [unfold write_numeric|unfold write_string|unfold write_binary]; apply is_tag_E. Qed.
+Lemma ti_encoding e : tags_in (enc_tag e :: INNER) (write_encoding U e).
+Proof. destruct e as [ne|se|s0]; cbn [write_encoding enc_tag]; [apply ti_numeric|apply ti_string|apply ti_binary]. Qed.
+
+(* the data encoding is found wherever it sits among UnitSet / EnumerationList siblings, and read back *)
+Theorem rt_encoding m a pre post e : encoding_wf e -> Forall (tags_in INNER) pre -> Forall (tags_in INNER) post ->
+  read_encoding U (E U m a (pre ++ write_encoding U e :: post)) = Ok e.
+Proof.
+  intros W Hpre Hpost. unfold read_encoding.
+  assert (Kids : Forall (tags_in (enc_tag e :: INNER)) (pre ++ write_encoding U e :: post)).
+  { apply Forall_app. split; [|constructor; [apply ti_encoding|]]; eapply Forall_impl; try eassumption;
+      intros v; apply ti_weaken; intros; now right. }
+  assert (Miss : forall n, In n ["StringDataEncoding"; "IntegerDataEncoding"; "FloatDataEncoding"; "BinaryDataEncoding"] ->
+                 String.eqb (enc_tag e) n = false -> find_desc U n (E U m a (pre ++ write_encoding U e :: post)) = None).
+  { intros n Hn Hne. apply (find_desc_miss (enc_tag e :: INNER)); auto. intros m' [<-|Hm']; auto. now apply not_in_inner. }
+  assert (Hit : find_desc U (enc_tag e) (E U m a (pre ++ write_encoding U e :: post)) = Some (write_encoding U e)).
+  { apply (find_desc_hit INNER); auto.
+    - apply not_in_inner. destruct e as [ne| |]; cbn [enc_tag]; [destruct (xn_float ne)| |]; cbn; tauto.
+    - rewrite is_tag_write_encoding. apply String.eqb_refl. }
+  destruct e as [ne|se|s0]; cbn [enc_tag encoding_wf write_encoding] in *.
+  - destruct (xn_float ne) eqn:F.
+    + rewrite (Miss "StringDataEncoding") by (cbn; tauto || reflexivity). rewrite (Miss "IntegerDataEncoding") by (cbn; tauto || reflexivity).
+      rewrite Hit. rewrite <- F. now rewrite rt_numeric.
+    + rewrite (Miss "StringDataEncoding") by (cbn; tauto || reflexivity). rewrite Hit. rewrite <- F. now rewrite rt_numeric.
+  - rewrite Hit. now rewrite rt_string.
+  - rewrite (Miss "StringDataEncoding") by (cbn; tauto || reflexivity). rewrite (Miss "IntegerDataEncoding") by (cbn; tauto || reflexivity).
+    rewrite (Miss "FloatDataEncoding") by (cbn; tauto || reflexivity). rewrite Hit. now rewrite rt_binary.
+Qed.
+End Enc.
+
+Section Doc.
+Variable U : option string.
+
+Ltac step := repeat (progress (
+  unfold find, findall, get, req_s, req_z, req_f, opt_s, opt_b, text_s, text_z, localname;
+  rewrite ?E_kids, ?E_attrs, ?ET_text;
+  cbn [List.find filter attr bind fst snd app map find_path];
+  rewrite ?is_tag_E, ?is_tag_ET, ?is_tag_VE;
+  cbn [String.eqb Ascii.eqb Bool.eqb])).
+Ltac fstep := repeat (progress (
+  unfold find_path, find, findall; rewrite ?E_kids, ?E_attrs, ?ET_text; cbn [List.find filter app];
+  rewrite ?is_tag_E, ?is_tag_ET, ?is_tag_VE, ?is_tag_write_cal, ?is_tag_write_comparison, ?is_tag_write_bexpr;
+  cbn [String.eqb Ascii.eqb Bool.eqb])).
+
+(* ---- parameter types (non-time kinds) ---- *)
+Definition ptype_wf (t : xptype) : Prop :=
+  encoding_wf (xt_enc t) /\ xt_unit t <> Some "" /\
+  match xt_kind t with
+  | XKString => exists se, xt_enc t = XStr se
+  | XKBinary => exists s0, xt_enc t = XBin s0
+  | XKEnum _ => forall s0, xt_enc t <> XBin s0
+  | XKTime _ _ _ => False
+  | _ => True
+  end.
+
+Definition unit_part (t : xptype) : list velem :=
+  match xt_unit t with Some u => if String.eqb u "" then [] else [E U "UnitSet" [] [ET U "Unit" (AS u)]] | None => [] end.
+Definition enum_part (t : xptype) : list velem :=
+  match xt_kind t with
+  | XKEnum labels => [E U "EnumerationList" [] (map (fun vl : aval * string => E U "Enumeration" [("label", AS (snd vl)); ("value", fst vl)] []) labels)]
+  | _ => [] end.
+Lemma write_ptype_eq t : match xt_kind t with XKTime _ _ _ => False | _ => True end ->
+  write_ptype U t = E U (kind_tag (xt_kind t)) [("name", AS (xt_name t))] (unit_part t ++ write_encoding U (xt_enc t) :: enum_part t).
+Proof. unfold write_ptype, unit_part, enum_part. destruct (xt_kind t); try contradiction; intros _; reflexivity. Qed.
+
+Lemma ti_unit_part t : Forall (tags_in INNER) (unit_part t).
+Proof.
+  unfold unit_part. destruct (xt_unit t) as [u|]; [destruct (String.eqb u "")|]; repeat constructor; cbn; tauto.
+Qed.
+Lemma ti_enum_part t : Forall (tags_in INNER) (enum_part t).
+Proof.
+  unfold enum_part. destruct (xt_kind t); try constructor; [|constructor]. apply ti_E; [cbn; tauto|]. apply ti_map. intros. apply ti_E; [cbn; tauto|constructor].
+Qed.
+
+Lemma rt_labels labels : mapM (fun e => match get e "value" with Some x => lbl <- req_s e "label" ;; Ok (x, lbl) | None => Err EKey end)
+                              (map (fun vl : aval * string => E U "Enumeration" [("label", AS (snd vl)); ("value", fst vl)] []) labels) = Ok labels.
+Proof.
+  apply mapM_map_rt. rewrite Forall_forall. intros [v l] _. unfold get, req_s, get. rewrite E_attrs. cbn [attr String.eqb Ascii.eqb Bool.eqb fst snd bind]. reflexivity.
+Qed.
+
+Theorem rt_ptype t : ptype_wf t -> read_ptype U (write_ptype U t) = Ok t.
+Proof.
+  intros (We & Wu & Wk). destruct t as [name kind unit enc]. cbn [xt_enc xt_unit xt_kind xt_name] in *.
+  assert (NT : match kind with XKTime _ _ _ => False | _ => True end) by (destruct kind; auto).
+  rewrite (write_ptype_eq {| xt_name := name; xt_kind := kind; xt_unit := unit; xt_enc := enc |} NT). cbn [xt_name xt_kind xt_enc].
+  set (t := {| xt_name := name; xt_kind := kind; xt_unit := unit; xt_enc := enc |}).
+  unfold read_ptype. unfold localname. cbn [E vtag snd].
+  assert (Tag : (String.eqb (kind_tag kind) "AbsoluteTimeParameterType" || String.eqb (kind_tag kind) "RelativeTimeParameterType")%bool = false)
+    by (destruct kind; try contradiction; reflexivity).
+  rewrite Tag. unfold get. rewrite E_attrs. cbn [attr String.eqb Ascii.eqb Bool.eqb bind].
+  (* units *)
+  assert (RU : read_units U (E U (kind_tag kind) [("name", AS name)] (unit_part t ++ write_encoding U enc :: enum_part t)) = Ok unit).
+  { unfold read_units, unit_part, t. cbn [xt_unit]. destruct unit as [u|].
+    - destruct (String.eqb_spec u "") as [->|Hu]; [congruence|]. fstep. step. reflexivity.
+    - cbn [app]. unfold find. rewrite E_kids. cbn [List.find]. rewrite is_tag_write_encoding.
+      assert (E1 : String.eqb (enc_tag enc) "UnitSet" = false) by (destruct enc as [ne| |]; cbn [enc_tag]; [destruct (xn_float ne)| |]; reflexivity).
+      rewrite E1. unfold enum_part. cbn [xt_kind]. destruct kind; cbn [List.find]; rewrite ?is_tag_E; reflexivity. }
+  rewrite RU. cbn [bind].
+  rewrite (rt_encoding U _ _ (unit_part t) (enum_part t) enc We (ti_unit_part t) (ti_enum_part t)). cbn [bind].
+  (* the kind, decided by the tag *)
+  destruct kind as [| | | | |labels|ab ep ofr]; try contradiction; cbn [kind_tag String.eqb Ascii.eqb Bool.eqb orb].
+  - reflexivity.
+  - reflexivity.
+  - destruct Wk as [se ->]. reflexivity.
+  - destruct Wk as [s0 ->]. reflexivity.
+  - reflexivity.
+  - assert (RL : read_enum_labels U (E U "EnumeratedParameterType" [("name", AS name)] (unit_part t ++ write_encoding U enc :: enum_part t)) = Ok labels).
+    { unfold read_enum_labels, find. rewrite E_kids.
+      assert (F : List.find (is_tag U "EnumerationList") (unit_part t ++ write_encoding U enc :: enum_part t)
+                  = Some (E U "EnumerationList" [] (map (fun vl : aval * string => E U "Enumeration" [("label", AS (snd vl)); ("value", fst vl)] []) labels))).
+      { unfold unit_part, t. cbn [xt_unit]. destruct unit as [u|]; [destruct (String.eqb u "")|]; cbn [app List.find]; rewrite ?is_tag_E, ?is_tag_write_encoding;
+          cbn [String.eqb Ascii.eqb Bool.eqb];
+          (assert (E1 : String.eqb (enc_tag enc) "EnumerationList" = false) by (destruct enc as [ne| |]; cbn [enc_tag]; [destruct (xn_float ne)| |]; reflexivity));
+          rewrite E1; unfold enum_part; cbn [xt_kind List.find]; rewrite is_tag_E; reflexivity. }
+      rewrite F. rewrite E_kids. apply rt_labels. }
+    destruct enc as [ne|se|s0]; [| |exfalso; now apply (Wk s0)]; rewrite RL; reflexivity.
+Qed.
+
+(* ---- parameters ---- *)
+Definition param_wf (p : xparam) : Prop := xp_short p <> Some "" /\ xp_long p <> Some "".
+Theorem rt_param p : param_wf p -> read_param U (write_param U p) = Ok p.
+Proof.
+  intros [Ws Wl]. destruct p as [name ty short long]. cbn [xp_short xp_long] in *. unfold read_param, write_param. cbn [xp_name xp_type xp_short xp_long].
+  unfold nonempty. destruct short as [s0|]; [destruct (String.eqb_spec s0 "") as [->|Hs]; [congruence|]|];
+    (destruct long as [l|]; [destruct (String.eqb_spec l "") as [->|Hl]; [congruence|]|]); unfold optattr; fstep; step; reflexivity.
+Qed.
+
+(* ---- containers ---- *)
+Definition container_wf (c : xcontainer) : Prop :=
+  xk_short c <> Some "" /\ xk_long c <> Some "" /\
+  match xk_base c with
+  | None => xk_criteria c = []
+  | Some _ => xk_criteria c <> [] /\ criteria_wf true (xk_criteria c)
+  end.
+Definition wr_entry (e : xentry) : velem :=
+  match e with XEP n => E U "ParameterRefEntry" [("parameterRef", AS n)] [] | XEC n => E U "ContainerRefEntry" [("containerRef", AS n)] [] end.
+Definition rd_entry (e : velem) : res (list xentry) :=
+  if String.eqb (localname e) "ParameterRefEntry" then n <- req_s e "parameterRef" ;; Ok [XEP n]
+  else if String.eqb (localname e) "ContainerRefEntry" then n <- req_s e "containerRef" ;; Ok [XEC n] else Ok [].
+Lemma rt_entries es : mapM rd_entry (map wr_entry es) = Ok (map (fun e => [e]) es).
+Proof. induction es as [|[n|n] t IH]; [reflexivity| |]; cbn [map mapM]; unfold rd_entry at 1, wr_entry at 1; step; now rewrite IH. Qed.
+Lemma concat_singletons {A} (l : list A) : List.concat (map (fun e => [e]) l) = l.
+Proof. induction l; cbn; congruence. Qed.
+
+Theorem rt_container c v : container_wf c -> write_container U c = Ok v -> read_container U v = Ok c.
+Proof.
+  intros (Ws & Wl & Wb) H. destruct c as [name ab short long entries base crit]. cbn [xk_short xk_long xk_base xk_criteria] in *.
+  unfold write_container in H. cbn [xk_name xk_abstract xk_short xk_long xk_entries xk_base xk_criteria] in H.
+  assert (EL : forall tag attrs pre, Forall (fun x => is_tag U "EntryList" x = false) pre ->
+     match find U "EntryList" (E U tag attrs (pre ++ [E U "EntryList" [] (map wr_entry entries)])) with
+     | None => Err EAttr
+     | Some el => mapM rd_entry (vkids el) end = Ok (map (fun e => [e]) entries)).
+  { intros tag attrs pre HF. unfold find. rewrite E_kids.
+    assert (F : List.find (is_tag U "EntryList") (pre ++ [E U "EntryList" [] (map wr_entry entries)]) = Some (E U "EntryList" [] (map wr_entry entries))).
+    { induction HF as [|x r Hx _ IH]; cbn [app List.find]; [now rewrite is_tag_E|now rewrite Hx]. }
+    rewrite F, E_kids. apply rt_entries. }
+  unfold nonempty in H.
+  destruct base as [b|].
+  - destruct Wb as [Wne Wk]. destruct crit as [|k ks]; [congruence|]. injection H as <-.
+    pose proof (rt_match U true true "RestrictionCriteria" [] (k :: ks) Wk) as R. unfold write_criteria in R. cbn [map] in R.
+    unfold read_container.
+    destruct short as [s0|]; [destruct (String.eqb_spec s0 "") as [->|Hs]; [congruence|]|];
+      (destruct long as [l|]; [destruct (String.eqb_spec l "") as [->|Hl]; [congruence|]|]); unfold optattr; cbn [app];
+      fstep; step; rewrite R; cbn [bind];
+      fold wr_entry; fold rd_entry; fstep; step; fold wr_entry; rewrite rt_entries; cbn [bind]; rewrite concat_singletons; reflexivity.
+  - subst crit. injection H as <-. unfold read_container.
+    destruct short as [s0|]; [destruct (String.eqb_spec s0 "") as [->|Hs]; [congruence|]|];
+      (destruct long as [l|]; [destruct (String.eqb_spec l "") as [->|Hl]; [congruence|]|]); unfold optattr; cbn [app];
+      fstep; step; fold wr_entry; rewrite rt_entries; cbn [bind]; rewrite concat_singletons; reflexivity.
+Qed.
+
+(* ---- the whole document ---- *)
+Definition doc_wf (d : xdoc) : Prop :=
+  Forall ptype_wf (xd_types d) /\ Forall param_wf (xd_params d) /\ Forall container_wf (xd_containers d) /\
+  xd_name d <> Some "" /\ xd_date d <> Some "".
+
+Lemma rt_containers cs : Forall container_wf cs -> forall vs, mapM (write_container U) cs = Ok vs -> mapM (read_container U) vs = Ok cs.
+Proof.
+  induction 1 as [|c t Hc _ IH]; intros vs H; cbn [mapM] in H; [injection H as <-; reflexivity|].
+  destruct (write_container U c) as [v|] eqn:W; cbn [bind] in H; [|discriminate].
+  destruct (mapM (write_container U) t) as [r|]; cbn [bind] in H; [|discriminate]. injection H as <-.
+  cbn [mapM]. rewrite (rt_container c v Hc W). cbn [bind]. now rewrite (IH r eq_refl).
+Qed.
+
+Definition with_date (d : xdoc) (date : string) : xdoc :=
+  {| xd_types := xd_types d; xd_params := xd_params d; xd_containers := xd_containers d; xd_name := xd_name d;
+     xd_date := Some (match xd_date d with Some x => x | None => date end) |}.
+
+Theorem rt_doc date d v : doc_wf d -> write_doc U date d = Ok v -> read_doc U v = Ok (with_date d date).
+Proof.
+  intros (Wt & Wp & Wc & Wn & Wd) H. unfold write_doc in H.
+  destruct (mapM (write_container U) (xd_containers d)) as [cs|] eqn:C; cbn [bind] in H; [|discriminate]. injection H as <-.
+  unfold read_doc.
+  assert (RT : mapM (read_ptype U) (map (write_ptype U) (xd_types d)) = Ok (xd_types d)).
+  { apply mapM_map_rt. eapply Forall_impl; [|exact Wt]. intros; now apply rt_ptype. }
+  assert (RP : mapM (read_param U) (map (write_param U) (xd_params d)) = Ok (xd_params d)).
+  { apply mapM_map_rt. eapply Forall_impl; [|exact Wp]. intros; now apply rt_param. }
+  pose proof (rt_containers _ Wc cs C) as RC.
+  assert (Dt : match nonempty (xd_date d) with Some x => x | None => date end = match xd_date d with Some x => x | None => date end).
+  { unfold nonempty. destruct (xd_date d) as [x|]; [|reflexivity]. destruct (String.eqb_spec x "") as [->|]; [congruence|reflexivity]. }
+  unfold with_date. rewrite <- Dt.
+  assert (Nn : nonempty (xd_name d) = xd_name d).
+  { unfold nonempty. destruct (xd_name d) as [n|]; [|reflexivity]. destruct (String.eqb_spec n "") as [->|]; [congruence|reflexivity]. }
+  rewrite Nn. destruct (xd_name d) as [n|] eqn:N; unfold optattr;
+    fstep; step; rewrite RT; cbn [bind]; fstep; step; rewrite RP; cbn [bind]; fstep; step; rewrite RC; cbn [bind]; reflexivity.
+Qed.
+
+(* a second write of what was read back produces the same tree: stability under repeated cycles *)
+Theorem write_read_write date d v : doc_wf d -> write_doc U date d = Ok v ->
+  exists d', read_doc U v = Ok d' /\ write_doc U date d' = Ok v.
+Proof.
+  intros W H. exists (with_date d date). split; [now apply rt_doc|].
+  unfold write_doc in *. cbn [with_date xd_containers xd_types xd_params xd_name xd_date].
+  destruct (mapM (write_container U) (xd_containers d)) as [cs|]; cbn [bind] in *; [|discriminate]. injection H as <-.
+  do 6 f_equal. destruct W as (_ & _ & _ & _ & Wd). unfold nonempty.
+  destruct (xd_date d) as [x|].
+  - destruct (String.eqb_spec x "") as [->|Hx]; [congruence|reflexivity].
+  - destruct (String.eqb date ""); reflexivity.
+Qed.
+End Doc.
+
+(* non-vacuity: a concrete document with an enumerated type, a calibrated integer, a string, inheritance with a boolean
+   expression; it is well formed and round-trips by computation *)
+Definition example_doc : xdoc :=
+  let cmp := {| xc_ref := "PKT_APID"; xc_value := "11"; xc_op := "=="; xc_cal := true |} in
+  let cond := {| xd_left := "MODE"; xd_lcal := false; xd_op := ">="; xd_right := XParam "PKT_APID" true |} in
+  {| xd_types :=
+       [ {| xt_name := "U11"; xt_kind := XKInteger; xt_unit := None;
+            xt_enc := XNum {| xn_float := false; xn_size := 11; xn_encoding := "unsigned"; xn_order := "mostSignificantByteFirst";
+                              xn_default := Some (XPoly [(4602678819172646912, 1)]);
+                              xn_context := Some [ {| xx_criteria := [XCmp cmp]; xx_cal := XSpline 1 true [(0, 0); (4607182418800017408, 4611686018427387904)] |} ] |} |};
+         {| xt_name := "MODE_T"; xt_kind := XKEnum [(AZ 0, "OFF"); (AZ 1, "ON")]; xt_unit := Some "state";
+            xt_enc := XNum {| xn_float := false; xn_size := 2; xn_encoding := "unsigned"; xn_order := "mostSignificantByteFirst";
+                              xn_default := None; xn_context := None |} |};
+         {| xt_name := "TXT"; xt_kind := XKString; xt_unit := None;
+            xt_enc := XStr {| xs_charset := "UTF-16BE"; xs_order := Some "mostSignificantByteFirst";
+                              xs_size := XDynamic "PKT_APID" false (Some (8, 0)); xs_term := Some "0058"; xs_leading := None |} |} ];
+     xd_params := [ {| xp_name := "PKT_APID"; xp_type := "U11"; xp_short := Some "apid"; xp_long := None |};
+                    {| xp_name := "MODE"; xp_type := "MODE_T"; xp_short := None; xp_long := Some "mode of operation" |};
+                    {| xp_name := "NOTE"; xp_type := "TXT"; xp_short := None; xp_long := None |} ];
+     xd_containers :=
+       [ {| xk_name := "ROOT"; xk_abstract := true; xk_short := None; xk_long := None; xk_entries := [XEP "PKT_APID"; XEP "MODE"];
+            xk_base := None; xk_criteria := [] |};
+         {| xk_name := "CHILD"; xk_abstract := false; xk_short := Some "child"; xk_long := None; xk_entries := [XEP "NOTE"; XEC "ROOT"];
+            xk_base := Some "ROOT"; xk_criteria := [XBool (XTree (XAnd [cond] [XOr [cond] []]))] |} ];
+     xd_name := Some "EXAMPLE"; xd_date := None |}.
+
+Example example_doc_wf : doc_wf example_doc.
+Proof.
+  unfold doc_wf, example_doc. cbn [xd_types xd_params xd_containers xd_name xd_date].
+  repeat first [ split | apply Forall_cons | apply Forall_nil | discriminate | exact I | reflexivity | (right; reflexivity) | (left; reflexivity)
+               | (eexists; reflexivity) | (intros; discriminate) | (cbn; tauto) ].
+Qed.
+Example example_roundtrip :
+  exists v, write_doc (Some "urn:x") "2024-01-01" example_doc = Ok v /\ read_doc (Some "urn:x") v = Ok (with_date example_doc "2024-01-01").
+Proof. eexists. split; [vm_compute; reflexivity|vm_compute; reflexivity]. Qed.
